@@ -584,6 +584,7 @@ func runC08Full(env *core.Env, c *c08Case) {
 	env.Sched.Knobs.MaxSteps = 300000
 	env.Sched.Knobs.Horizon = 6 * time.Hour
 	sut.Install(env)
+	env.AcctInexact = true // (C13 mode) clients here abandon exchanges on purpose: only gauges and inequalities are judged
 	pw := newPolWorld(env, &polCase{Conns: make([]polConn, len(c.Conns)+1)})
 	pw.setup()
 	s, err := sut.Start(env, sut.Options{Config: func(cfg *forwarder.HTTPProxyConfig) {
